@@ -28,8 +28,11 @@ Other(s) == IF s = "A" THEN "B" ELSE "A"
 
 \* sched is not a configuration but a schedule of the application: "slowSetRemote" = the task that runs the offerer's
 \* set_remote_description(answer) is slow after it has started ICE (the description is stored late)
-Lattice == [mode : Modes, media : MediaSets, bundle : Bundles, mux : Muxes, ice : Ices,
-            latching : Latchings, compat : Compats, offerer : Offerers, sched : Scheds, reneg : Renegs]
+\* options that need not match between the endpoints are per-side dimensions: rtcp-mux policy, SDP compatibility mode,
+\* latching, and (inside the value of `ice`) ICE-lite / single-port UDP mux / ICE-TCP role
+Lattice == [mode : Modes, media : MediaSets, bundle : Bundles, muxA : Muxes, muxB : Muxes, ice : Ices,
+            latchingA : Latchings, latchingB : Latchings, compatA : Compats, compatB : Compats,
+            offerer : Offerers, sched : Scheds, reneg : Renegs]
 
 \* reneg: who starts a second offer/answer round once the connection is up and has delivered ("none": nobody)
 
@@ -37,12 +40,16 @@ Lattice == [mode : Modes, media : MediaSets, bundle : Bundles, mux : Muxes, ice 
 Compatible(c) ==
     /\ c.media # {}
     /\ (c.mode = "WebRtc") =>
-          /\ c.compat = "Standard" /\ c.latching = FALSE
+          /\ c.compatA = "Standard" /\ c.compatB = "Standard"      \* LegacySip is for plain SIP endpoints
+          /\ c.latchingA = FALSE /\ c.latchingB = FALSE
     /\ (c.mode # "WebRtc") =>
           /\ "dc" \notin c.media
           /\ c.ice = "full"                       \* no ICE agent in the direct modes
-          /\ (c.mode = "Srtp" => c.latching = FALSE)
+          /\ (c.mode = "Srtp" => (c.latchingA = FALSE /\ c.latchingB = FALSE))
           /\ c.sched = "plain"
+    \* (ICE values are pairs that have a common transport: never lite on both sides; ICE-TCP needs one active and one
+    \*  passive side, and passive candidates exist only where a tcp_port_range is configured; an endpoint with ICE-TCP
+    \*  disabled gathers UDP only, so it cannot reach a TCP-only peer - those pairs are not in Ices)
 
 VARIABLES cfg,
           sig,     \* [Sides -> signaling state]
